@@ -62,7 +62,7 @@ type c40wCase struct {
 	Series      []c40wSeries // Series[0] is the template of the synchronisation series (always kept by relabelling)
 	Pre         []c40wOp     `json:",omitempty"` // written before the queue manager starts
 	Ops         []c40wOp
-	GCWait      bool // wait > checkpointPeriod after the history, then write to every series once more
+	GCWait      bool       // wait > checkpointPeriod after the history, then write to every series once more
 	Faults      []c40Fault `json:",omitempty"`
 	Observed    *c40Obs    `json:",omitempty"`
 }
@@ -358,6 +358,7 @@ func c40wExecute(c c40wCase) (*c40Obs, string, string) {
 				}
 				app := h.Appender(ctx)
 				var ref storage.SeriesRef
+				refs := make([]uint64, 0, len(st.Data))
 				for _, di := range st.Data {
 					d := m.Data[di]
 					lset := series[d.Series].L.Labels()
@@ -370,6 +371,7 @@ func c40wExecute(c c40wCase) (*c40Obs, string, string) {
 					case "e":
 						_, err = app.AppendExemplar(ref, lset, exemplar.Exemplar{Labels: labels.FromStrings("trace_id", strconv.Itoa(d.G)), Value: float64(d.G), Ts: d.T, HasTs: true})
 					}
+					refs = append(refs, uint64(ref))
 					if err != nil {
 						_ = app.Rollback()
 						harnessErr = fmt.Sprintf("%s: head rejected %s datum #%d of series %d: %v", st.OpName, d.Kind, d.G, d.Series, err)
@@ -381,6 +383,10 @@ func c40wExecute(c c40wCase) (*c40Obs, string, string) {
 					return
 				}
 				commitTimes = append(commitTimes, base+int64(st.Time)*1000)
+				for len(obs.FeedRef) < st.Data[0] {
+					obs.FeedRef = append(obs.FeedRef, 0)
+				}
+				obs.FeedRef = append(obs.FeedRef, refs...)
 				for _, di := range st.Data {
 					if m.Data[di].Must {
 						mustFed++
@@ -472,6 +478,16 @@ func c40wExecute(c c40wCase) (*c40Obs, string, string) {
 func c40wOracle(c c40wCase, o *c40Obs, r *ev.Rec) error {
 	m, _, _, series := c40wBuild(c, o.Base)
 	name := func(si int) string { return fmt.Sprintf("%d %v", si, series[si].L) }
+	incarnations := map[[2]uint64]bool{}
+	for i := range m.Data {
+		if i < len(o.FeedRef) {
+			m.Data[i].Inc = o.FeedRef[i]
+			incarnations[[2]uint64{uint64(m.Data[i].Series), o.FeedRef[i]}] = true
+		}
+	}
+	if len(incarnations) > len(series) {
+		r.Class("series-rewritten-under-new-ref")
+	}
 	if err := c40CheckHistory(m, name, o, false); err != nil {
 		return err
 	}
@@ -487,6 +503,16 @@ func c40wOracle(c c40wCase, o *c40Obs, r *ev.Rec) error {
 }
 
 func runC40W(c c40wCase, r *ev.Rec) error {
+	if len(c.Series) < 2 || len(c.Series[0].L) == 0 || c.Capacity == 0 {
+		r.Discard() // a replay file of another part of C40
+		return nil
+	}
+	for _, op := range c.Ops {
+		if op.Kind != "commit" && op.Kind != "rotate" && op.Kind != "truncate" && op.Kind != "pause" && op.Kind != "reshard" {
+			r.Discard()
+			return nil
+		}
+	}
 	if c.Observed != nil {
 		o := c.Observed
 		c.Observed = nil
